@@ -64,6 +64,16 @@ def h_name(c):
     c.assume(c.eq(pcs[0], c.params['first']))
   octs = [c.int('o%d' % i, 0, 9) for i in range(Kn)]
   pitches = [pc + 12 * o for pc, o in zip(pcs, octs)]
+  if c.params.get('doubled'):
+    # one pitch class sounds in two octaves (either may be the lowest pitch;
+    # the copy is stored before or after the others)
+    j = c.choice('dbl', list(range(Kn)))
+    extra = pcs[j] + 12 * c.int('o_dbl', 0, 9)
+    c.assume(c.Not(c.eq(extra, pitches[j])))
+    if c.choice('dbl_first', [False, True]):
+      pitches = [extra] + pitches
+    else:
+      pitches = pitches + [extra]
   res, err = c.raises(cs.pitches_to_chord_symbol, list(pitches))
   if err is not None:
     c.check(isinstance(err, cs.ChordSymbolError),
@@ -235,6 +245,12 @@ def jobs(tier):
   add(K=2)
   for first in range(0, 10):
     add(K=3, first=first)
+  # a pitch class doubled in another octave (bass = lowest PITCH, not the
+  # lowest of one representative per class)
+  add(K=1, doubled=True)
+  add(K=2, doubled=True)
+  for first in range(0, 10, 3):
+    add(K=3, first=first, doubled=True)
   # every kind of the module's table on every root, all layouts
   for lo in range(0, 29, 3):  # 29 kinds in the table
     add(harness='h_kind', kinds=[lo, lo + 3], budget=900)
@@ -262,6 +278,9 @@ def jobs(tier):
     for k in (4, 5, 6):
       for first in range(0, 13 - k):
         add(K=k, first=first, budget=3000)
+    for first in range(0, 10):
+      add(K=3, first=first, doubled=True, budget=3000)
+    add(K=4, first=0, doubled=True, budget=3000)
     for k in (7, 8):
       for first in range(0, 13 - k):
         add(K=k, first=first, budget=3000, required=False)
